@@ -283,7 +283,47 @@ def retire_wiring(P, R, rule='C10.WIRE.6'):
     R.floor(rule, 4)
 
 
+def module_records_are_flat(P, R, rule='C10.OWN.1'):
+    """A request's per-module records are released by the request set's own cleanup - when the request is disposed, and
+    also when a re-announced id replaces it or the table is cleared at exit, none of which calls into the modules.  A
+    record therefore owns nothing but itself: it has no pointer member that a module allocates (the key it is filed
+    under excepted), or the set it lives in has a cleanup function that frees what it owns."""
+    n = 0
+    for f in P.fns.values():
+        if f.unit.startswith('tests/'):
+            continue
+        for s in f.calls('set_insert'):
+            a = s.ev['args'][0] if s.ev['args'] else None
+            if not (isinstance(a, dict) and any(x.get('k') == 'mem' and x.get('field') == 'data' and x.get('rec') == core.REQ_REC for x in walk(a))):
+                continue
+            # the record type: the local that set_node_data() of the inserted node was assigned to
+            recs = set()
+            for t in f.sites():
+                val = t.ev.get('rhs') if t.ev['k'] == 'store' else t.ev.get('init') if t.ev['k'] == 'decl' else None
+                if isinstance(val, dict) and (any(x.get('k') == 'callref' and x.get('callee') == 'set_node_data' for x in walk(val)) or
+                                              any(x.get('k') == 'bin' and x.get('op') == '+' and is_var(x.get('l')) and 'struct set_node' in (x['l'].get('t') or '') and const_of(x.get('r')) == 1 for x in walk(val))):
+                    tt = (t.ev.get('lhs') or {}).get('t') if t.ev['k'] == 'store' else t.ev.get('t')
+                    if tt and tt.startswith('struct ') and tt.rstrip().endswith('*'):
+                        recs.add(tt[len('struct '):].rstrip('* ').strip())
+            for rec in sorted(recs):
+                rd = P.records.get(rec) or {}
+                ptrs = [fd['name'] for fd in rd.get('fields', ()) if '*' in fd.get('t', '') and '(*' not in fd.get('t', '')]
+                # which of them does the module ever point at memory it allocated?
+                owned = []
+                for g in P.fns.values():
+                    for t in g.stores():
+                        lhs = t.ev.get('lhs') or {}
+                        if t.ev['k'] == 'store' and lhs.get('k') == 'mem' and lhs.get('rec') == rec and lhs.get('field') in ptrs:
+                            if any(x.get('k') == 'callref' and x.get('callee') in ('xmalloc', 'malloc', 'calloc', 'xstrdup', 'strdup', 'realloc', 'xrealloc', 'xstrndup') for x in walk(t.ev.get('rhs') or {})):
+                                owned.append((lhs['field'], t))
+                n += 1
+                R.ob(rule, not owned, owned[0][1] if owned else s, 'the per-client record %s owns no allocation of its own (pointer members: %s%s)' % (rec, ', '.join(ptrs) or 'none', ('; allocated: ' + ', '.join(sorted({o[0] for o in owned}))) if owned else ''),
+                     key='flat-record:%s' % rec)
+    R.floor(rule, 1, 'per-client module records')
+
+
 def run(P, R, tier):
+    module_records_are_flat(P, R)
     # withdrawals and registrations must find the request they are about
     from .c08 import junk_inert
     junk_inert(P, R, 'C10.GRD.1')
